@@ -28,7 +28,9 @@ func inputLen(r *bytes.Reader) int { return verif_field_len(r, "s") }
 func consumed(r *bytes.Reader) int { return verif_field_int(r, "i") }
 
 // remaining: bytes of input not yet consumed.
-func remaining(r *bytes.Reader) uint64 { return uint64(verif_field_len(r, "s") - verif_field_int(r, "i")) }
+func remaining(r *bytes.Reader) uint64 {
+	return uint64(verif_field_len(r, "s") - verif_field_int(r, "i"))
+}
 
 // Every section / entry decoder, for ANY remaining input bytes: no Go run-time panic (index, slice,
 // nil, conversion, make with a bad size) and no single allocation larger than 64 bytes per remaining
